@@ -466,7 +466,8 @@ def evaluate(case):
         r = make_request(iface, [], query=query, method="GET")
         out, frame = observe(lambda: [[k, x] for k, x in r.query_params.multi_items()])
     elif op == "json":
-        _, iface, pre, ct, body = case
+        _, iface, pre, ct, body = case[:5]
+        clen = case[5] if len(case) > 5 else None      # a Content-Length the client announces (any text; the body is what arrives)
         ty, opts = parse_ct(ct)
         da, la = [], []
         if ty == "application/json" and pre == 0:
@@ -480,11 +481,12 @@ def evaluate(case):
             if da[0] == 0:
                 la = ctx.ask("loads", lambda: json.loads(box["t"]), lambda v: [digest(v)])
         line = [op, pre, opt(ct), da, la]
-        r = make_request(iface, _hdr("content-type", ct), body=body, pre=pre)
+        r = make_request(iface, _hdr("content-type", ct) + _hdr("content-length", clen), body=body, pre=pre)
         out, frame = observe(lambda: digest(get_attr(iface, r, "json")))
     elif op == "form":
         from urllib.parse import parse_qsl
-        _, iface, pre, ct, body = case
+        _, iface, pre, ct, body = case[:5]
+        clen = case[5] if len(case) > 5 else None
         ty, opts = parse_ct(ct)
         kind, da, mbody = [], [], b""
         if ty == "multipart/form-data":
@@ -505,7 +507,7 @@ def evaluate(case):
                 da = ctx.ask("parse_qsl", lambda: parse_qsl(box["t"], keep_blank_values=True),
                              lambda v: [[[k, x] for k, x in v]])
         line = [op, iface, pre, opt(ct), kind, mbody, da]
-        r = make_request(iface, _hdr("content-type", ct), body=body, pre=pre)
+        r = make_request(iface, _hdr("content-type", ct) + _hdr("content-length", clen), body=body, pre=pre)
 
         def f():
             form = get_attr(iface, r, "form")
@@ -1020,6 +1022,12 @@ def cases(tier, rng):
         yield "deep-json", ["json", iface, 0, "application/json", b'{"a":[' * 60000 + b"1" + b"]}" * 60000]
         many = b"".join(b"--XyZ\r\nContent-Disposition: form-data; name=\"f%d\"\r\n\r\n%d\r\n" % (i, i) for i in range(330)) + b"--XyZ--\r\n"
         yield "many-parts", ["form", iface, 0, "multipart/form-data; boundary=XyZ", many]
+        # whatever Content-Length the client announces (any digits, any size, junk): the body accessors answer from what arrives
+        for clen in ("9223372036854775808", "1" + "0" * 30, "9" * 4300, "9" * 4301, "0", "1", "-1", "+5", " 7 ", "abc", "", "\u00b2", "1_0"):
+            yield "announced-length", ["json", iface, 0, "application/json", b'{"a": 1}', clen]
+            yield "announced-length", ["form", iface, 0, "application/x-www-form-urlencoded", b"a=1&b=2", clen]
+            yield "announced-length", ["form", iface, 0, "multipart/form-data; boundary=XyZ",
+                                       b"--XyZ\r\nContent-Disposition: form-data; name=\"f\"\r\n\r\nv\r\n--XyZ--\r\n", clen]
         # every part-header shape once on its own, and once after an ordinary field and before a file
         for h in HDR_SHAPES:
             one = b"--XyZ\r\n" + b"\r\n".join(h) + b"\r\n\r\nvalue\r\n"
